@@ -6,7 +6,7 @@ C03 driver.  `A` = the model's trace, ledger and done flag equal the implementat
 `Spec` (about the IMPLEMENTATION's output, written against the declarative sender automaton of DownstreamSpec and the
 case only — no regenerated definition is used):
   1. the downstream sender calls are accepted by the sender automaton (headers once and first, one end of stream, at most one
-     reset, nothing after either)                                                          — theorem `sender_once`
+     reset, nothing after either; no ConnectionPool.NewStream after the response headers)  — theorems `sender_once`, `no_attempt_after_headers`
   2. the clean-up body ran exactly once iff the exchange is done, never twice               — theorem `clean_once`
   3. a finished exchange has a classified outcome (complete reply / reset / client gone / one-way), never silence; an
      unfinished started exchange is two-way, has delivered no terminal event yet and waits for a live upstream request         — theorem `outcome_total`
